@@ -370,12 +370,15 @@ impl Pipeline {
 
         let num_stages = stages.len();
 
-        // Create channels between stages
-        let mut channels: Vec<Option<(mpsc::Sender<T>, mpsc::Receiver<T>)>> = Vec::new();
+        // Create channels between stages: channel i carries the output of stage i to stage i + 1.
+        // The two halves are kept apart because they are taken at different iterations.
+        let mut senders: Vec<Option<mpsc::Sender<T>>> = Vec::new();
+        let mut receivers: Vec<Option<mpsc::Receiver<T>>> = Vec::new();
         for _ in 0..(num_stages - 1) {
             // One less channel than stages
             let (tx, rx) = mpsc::channel(self.config.buffer_size);
-            channels.push(Some((tx, rx)));
+            senders.push(Some(tx));
+            receivers.push(Some(rx));
         }
 
         // Spawn tasks for each stage
@@ -390,19 +393,19 @@ impl Pipeline {
 
             let mut stage_input_rx = if i == 0 {
                 // First stage reads from pipeline input
-                // SAFETY: current_input initialized with Some(input_rx) at line 383
+                // SAFETY: current_input initialized with Some(input_rx) above, taken exactly once
                 current_input.take().unwrap()
             } else {
-                // SAFETY: channels[i-1] exists (i >= 1, channels has num_stages-1 elements) and is Some (initialized at line 378, taken exactly once)
-                channels[i - 1].take().unwrap().1
+                // SAFETY: receivers[i-1] exists (i >= 1, num_stages-1 elements) and is taken exactly once
+                receivers[i - 1].take().unwrap()
             };
 
             let output_tx = if i == num_stages - 1 {
                 // Last stage writes to pipeline output
                 output_tx.clone()
             } else {
-                // SAFETY: channels[i] exists (i < num_stages-1, channels has num_stages-1 elements) and is Some (initialized at line 378, taken exactly once)
-                channels[i].take().unwrap().0
+                // SAFETY: senders[i] exists (i < num_stages-1) and is taken exactly once
+                senders[i].take().unwrap()
             };
 
             let config = self.config.clone();
